@@ -1,15 +1,16 @@
 import Poly.Proofs.Codec
+import Poly.Proofs.Schema
 /-!
 # C01 — Binary codec round-trips and fails safely on truncated input
 
 Model: `Poly.Model.Codec` (writers = `ZeroCopySink.WriteX`; machine readers = `ZeroCopySource.NextX` with `off : UInt64`,
 the `SafeAdd` guard and Go slice-bounds panics as `none`; pure readers on the unread remainder; the streaming codec
 `serialization.*`). All statements are for every value, every prefix `pre` already consumed and every suffix `r`.
-The "all concatenations" part of the property is the generic schema theorem of C04 (`Poly.Props.C04`) whose leaves are
-these primitives.
+"All concatenations" is `concatenation_roundtrip` / `concatenation_truncation`: the generic schema theorem (shared with C04) whose
+leaves are these primitives.
 -/
 namespace Poly.Props.C01
-open Poly.Model.Codec
+open Poly.Model.Codec Poly.Model.Schema
 
 /-! ## Round trip with exact consumption (pure readers: value, remainder `r`, no eof) -/
 
@@ -207,7 +208,21 @@ panics, and returns the size. -/
 theorem sink_varuint_mechanism (buf : Bytes) (v : UInt64) :
     Sink.writeVarUint buf v = some (buf ++ wVarUint v, varUintSize v) := Sink.writeVarUint_eq buf v
 
+/-! ## All concatenations -/
+
+/-- Any sequence (product) of primitives — and lists / maps of them — written field after field is read back field by field
+to the same values, consuming exactly what was written (the generic schema theorem of `Poly.Proofs.Schema`, whose leaves
+are the primitives above; `K` only concerns public-key leaves). -/
+theorem concatenation_roundtrip (K : Bytes → Option Bytes) (t : Ty) (v : t.Val) (r : Bytes) (h : t.WF K v) :
+    t.dec K (t.enc v ++ r) = .ok (v, r) := Ty.dec_enc K t v r h
+
+/-- Every cut strictly inside a concatenation of strict primitives is reported as an error by the field-by-field reader. -/
+theorem concatenation_truncation (K : Bytes → Option Bytes) (t : Ty) (hs : t.strict = true) (v : t.Val) (h : t.WF K v) (k : Nat)
+    (hk : k < (t.enc v).length) : IsErr (t.dec K ((t.enc v).take k)) := Ty.dec_trunc K t hs v h k hk
+
 /-! ## Non-vacuity -/
+example : (Ty.pair (.leaf .u16 .none) (.pair (.leaf .varbytes .none) (.leaf .bool .none))).WF (fun _ => none)
+    ((513 : UInt16), ([1, 2, 3] : Bytes), true) := Ty.wfb_sound _ _ _ (by decide)
 
 example : (Src.mk [1, 2, 3] 1).Inv := by constructor <;> decide
 example : nextVarBytes ⟨[0xAA, 0x02, 0x10, 0x20, 0x30], 1⟩ = some ([0x10, 0x20], ⟨[0xAA, 0x02, 0x10, 0x20, 0x30], 4⟩, false) := by decide
